@@ -261,3 +261,6 @@ CHECKS["C08"].update(
     technique=CHECKS["C08"]["technique"] + "; native comparison of header streams with the real dictionary (stand-in)")
 CHECKS["C05"].update(
     note=CHECKS["C05"]["note"].replace("are exercised only by the native unit C05.hostile", "— and JSON deserialisation, dumping and pixel data decoding — are exercised only by the native units C05.hostile / C05.hostile2"))
+CHECKS["C26"].update(
+    technique=CHECKS["C26"]["technique"].replace("of the writer (stand-ins)", "of the writer, and of the asynchronous writer and reader (stand-ins)"),
+    note=CHECKS["C26"]["note"].replace("The asynchronous writer and reader are not covered;", "The asynchronous writer and reader are covered only by the native unit C26.async (no async support in either verifier);"))
